@@ -231,6 +231,7 @@ def oracle(case, impl):
     fail = []
     expected = collections.Counter()
     strays = collections.Counter()
+    undelivered = None
     for cid, todo in a.groups.items():
         known = cid == c.local or cid in c.remotes
         calls = o.calls.get(cid, [])
@@ -249,6 +250,8 @@ def oracle(case, impl):
             batch = _list(flt[len("uuid~in~t:"):], ",")
             if not batch or not set(batch) <= set(todo):
                 return f"backend {cid} was asked for uuids that were not requested from it"
+            if not set(batch) <= outstanding:
+                return f"backend {cid} was asked again (call {i}) for a uuid it had already delivered"
             items = _resp_items(resp)
             if items is None:
                 fail.append(f"cluster {cid} returned an error at call {i}")
@@ -263,20 +266,28 @@ def oracle(case, impl):
                     delivered.append(u)
                     prog = True
                 else:
+                    # outside the batch this call was given, or a second copy within the page
                     strays[u] += 1
             if not prog:
                 fail.append(f"cluster {cid} answered call {i} without progress")
-        want = delivered if gone else [u for u in todo if u in c.world]
+        # an object exists on its home cluster if the world says so or the backend handed it over
+        want = delivered if gone else [u for u in todo if u in c.world or u in delivered]
         for u in want:
-            if u not in delivered and not fail:
-                return f"{u} exists on {cid} but was never obtained from that cluster"
+            if u not in delivered and undelivered is None:
+                undelivered = f"{u} exists on {cid} but was never obtained from that cluster"
             expected[u] += 1
     if fail:
         if o.ok:
             return "partial result returned as success although " + "; ".join(fail)
         return None
     if not o.ok:
+        if strays:
+            # a backend returned items outside its batch next to wanted ones: failing the whole request is a
+            # safe answer (this is what the proposed fix for F10 does); the unchanged code succeeds instead
+            return None
         return f"request failed (status {o.status}) although every involved cluster answered with progress"
+    if undelivered:
+        return undelivered
     got = collections.Counter(o.items)
     if got == expected:
         return None
